@@ -139,7 +139,7 @@ def check_suite(su, ready, live=None):
             if h and len(own) == 1:
                 x = own[0]
                 if named is not None and named != x:
-                    if served:
+                    if served and x in ready:
                         return f"{op}: mismatching id/hash pair was answered ({d['proc']})"
                 elif x in ready:
                     if not served or d["proc"] != P[x]["name"]:
@@ -329,6 +329,7 @@ def random_history(gen, rng, n_ops):
     """longer histories over three chains with every request form the control calls accept"""
     seq = []
     run = {}
+    maybe = {}
     for _ in range(n_ops):
         x = rng.choice(IDS)
         k = rng.below(100)
@@ -346,6 +347,8 @@ def random_history(gen, rng, n_ops):
             form = rng.choice([f"load {x} -", f"load {'-' if x == 'default' else x} -",
                                f"load {x} {gen.h[x + '.1']}", f"load {x} {UNKNOWN32}", f"load zed -"])
             seq.append(("load", x, label, [d, form]))
+            if label:
+                maybe.setdefault(x, set()).add(label)
             if x not in run and what in ("fresh", "grp1", "grp2", "bad") and "zed" not in form:
                 run[x] = label
         elif k < 62:
@@ -356,16 +359,14 @@ def random_history(gen, rng, n_ops):
             if seq[-1][3][0].split()[1] == x and seq[-1][3][0].split()[2] in ("-", gen.h.get(cur or "", "")):
                 run.pop(x, None)
         elif k < 80:
-            cur = run.get(x, "absent")
-            if cur == "absent":
-                label = f"{x}.1"
-            elif cur is None:
-                label = f"{x}.{rng.range(1, 2)}"
-            else:
-                label = cur
-            seq.append(("dkg", x, label, [f"dkg {x} {gen.g(label)}"]))
-            if x in run:
-                run[x] = label
+            # a DKG completion must not change the chain hash of a process that may already have one (assumption):
+            # `maybe` over-approximates the labels the process of x can carry
+            label = f"{x}.{rng.range(1, 2)}"
+            if maybe.setdefault(x, set()) <= {label}:
+                maybe[x].add(label)
+                seq.append(("dkg", x, label, [f"dkg {x} {gen.g(label)}"]))
+                if x in run:
+                    run[x] = label
         else:
             seq.append(("probe", x, None, ["tabs"]))
     return seq
